@@ -658,14 +658,14 @@ PROPS = {
         "assumptions": ["partial: not covered by a theorem (script correspondence only): malformed record text at the object API (refused by synthesis, C13.excluded_is_error, before insertion is attempted), failing insertion into a still-compressed object (decompressed first: bytes change, decoded message does not)"],
     },
     "C11": {
-        "module": "DnsModel.Theorems.C11", "theorems": ["Dns.C11.walk_delete", "Dns.C11.second_delete", "Dns.C11.delete_void_untouched", "Dns.C11.emptied_absent", "Dns.C11.still_accepted", "Dns.C11.plain_of_accepted", "Dns.C11.first_delete", "Dns.C11.walk_delete_parsed", "Dns.C11.walk_delete_skipping_opt", "Dns.delWalkSkip_refines", "Dns.delWalk_refines", "Dns.delWalk_fresh_refines", "Dns.PlainObj.delete_at", "Dns.absWalk_terminates", "Dns.absWalk_sublist", "Dns.absWalk_deleted_gone", "Dns.absWalk_yields_survivors", "Dns.absWalk_perm"],
+        "module": "DnsModel.Theorems.C11", "theorems": ["Dns.C11.walk_delete", "Dns.C11.second_delete", "Dns.C11.delete_void_untouched", "Dns.C11.emptied_absent", "Dns.C11.still_accepted", "Dns.C11.plain_of_accepted", "Dns.C11.first_delete", "Dns.C11.walk_delete_parsed", "Dns.C11.walk_delete_skipping_opt", "Dns.C11.walk_delete_parsed_skipping_opt", "Dns.C11.opt_once", "Dns.delWalkSkip_fresh_refines", "Dns.delWalkSkip_refines", "Dns.delWalk_refines", "Dns.delWalk_fresh_refines", "Dns.PlainObj.delete_at", "Dns.absWalk_terminates", "Dns.absWalk_sublist", "Dns.absWalk_deleted_gone", "Dns.absWalk_yields_survivors", "Dns.absWalk_perm"],
         "families": [{"name": "delete-walks", "quick": 0, "thorough": 0, "fixed": True}],
         "oracle": oracle_c11, "nontrivial": lambda c, a: "delete" in c, "shrink": False,
         "rule": "every subset of the records of a section of size 0..5 deleted from within one walk, for the three record sections and the question, pointer-free and compressed, OPT absent/first/last; walks over all four sections in one script in all 24 orders (question deleted first / last / in between), a question-less packet built from empty(); exhaustive in both tiers",
         "level": "proof",
         "explanation": "theorems: on every pointer-free packet object (what decompression, recompute or insertion leave for any accepted packet: plain_of_accepted), for each of the three record sections, for the public walk (OPT-skipping next() in answer/authority, OPT-including in all three) and every stream of delete/keep choices, the walk-and-delete run of the model terminates within (n+1)^2+n+1 steps without error or panic and refines an abstract list machine (delWalk_refines): each deletion removes exactly the record under the cursor and lowers exactly that section's count (PlainObj.delete_at), a second deletion through the same cursor reports VoidRecord and changes nothing, a deleted record is never yielded again, every survivor is yielded at least once, afterwards the section holds exactly the survivors in original order with matching count and an emptied section reads as absent, other sections / question / other header fields untouched, and the bytes are accepted by the parser with the section starts the object holds. The first deletion on a still-flagged (possibly compressed) object is first_delete: decompress, carry the cursor, delete exactly that record. "
                        "correspondence: exhaustive deletion walks (all subsets, sizes 0..5, four sections, two layouts, OPT absent/first/last) on the real iterators vs the model vs the walk oracle",
-        "assumptions": ["the run started on a freshly parsed (possibly compressed) packet is walk_delete_parsed: untouched until the first deletion, which decompresses and removes exactly the record under the cursor, then as on a plain object; the public next() walk over an additional section that holds an OPT record is walk_delete_skipping_opt (the walker sees the other records, OPT stays where it was); partial: the question section (KF1: by design its deletion leaves a packet parse() rejects) and the OPT-skipping walk started on a still-flagged object whose additional section holds OPT are covered by the exhaustive correspondence walks only"],
+        "assumptions": ["the run started on a freshly parsed (possibly compressed) packet is walk_delete_parsed: untouched until the first deletion, which decompresses and removes exactly the record under the cursor, then as on a plain object; the public next() walk over an additional section that holds an OPT record is walk_delete_skipping_opt (the walker sees the other records, OPT stays where it was); the same walk started on a freshly parsed (possibly compressed) packet is walk_delete_parsed_skipping_opt (at most one OPT: opt_once); partial: the question section (KF1: by design its deletion leaves a packet parse() rejects) is covered by the exhaustive correspondence walks only"],
     },
     "C13": {
         "module": "DnsModel.Theorems.C13", "theorems": ["Dns.C13.synth_total", "Dns.C13.rawNameFromStr_total", "Dns.C13.grammar_iff", "Dns.C13.excluded_is_error", "Dns.C13.wellformed", "Dns.C13.synth_piece", "Dns.C13.insert_accepted"],
@@ -779,7 +779,7 @@ MANIFEST_TEXT = {
             "note": NOTE, "technique": 'Lean 4 proof (piece shape lemmas, replace/delete/insert on the piece lists, resize-then-write byte lemma, decompress-first step) + step-wise correspondence + abstract-message oracle'},
     "C10": {"text": 'Lean theorems: insertion never yields more than 8192 bytes for any object and reports PacketTooLarge instead; a failing insert_rr on a pointer-free object (too large, second question, full section), delete/set_raw_name through a tombstoned cursor, an invalid or over-long name, set_rr_ip with the wrong family, and an overflowing rename all return the object as it was. Scripts biased to failing arguments and packets around/beyond 8192 and 65535 bytes: every failed call must leave the decoded message unchanged and the object consistent. Not proved (correspondence only): malformed text at the object API, failures after the decompress-first step.',
             "note": NOTE, "technique": 'Lean 4 proof (order of check and modify in the model of each mutator) + step-wise correspondence + abstract-message oracle'},
-    "C11": {"text": "Lean theorems: the cursor protocol on a pointer-free packet object (void cursor restarts the section with the current count, live cursor advances, delete = shrink by the record length + void the cursor + decrement the count + clear the section start at zero) refines an abstract walk-and-delete machine on the list of the section's records, for the three record sections, both public walks and every stream of choices; the list machine terminates ((n+1)^2+n+1 steps), removes exactly the chosen records, never yields a deleted record again, yields every survivor, leaves the survivors in order; the object stays a plain object (count = number of records, emptied section absent, bytes accepted, section starts as a fresh parse reports them), other sections/question/header fields untouched; a second delete reports VoidRecord and changes nothing; the first deletion on a still-compressed object decompresses, carries the cursor and removes exactly that record. The run started on a parsed (possibly compressed) packet is composed from the two phases (walk_delete_parsed). The public next() walk over an additional section holding OPT is proved on plain objects (walk_delete_skipping_opt). Question section (KF1) and the OPT-skipping walk started on a still-flagged object with OPT: correspondence only. Exhaustive deletion walks (every subset of sections of size 0..5, four sections, two layouts, OPT absent/first/last) compare the real iterators with the model and the walk oracle.",
+    "C11": {"text": "Lean theorems: the cursor protocol on a pointer-free packet object (void cursor restarts the section with the current count, live cursor advances, delete = shrink by the record length + void the cursor + decrement the count + clear the section start at zero) refines an abstract walk-and-delete machine on the list of the section's records, for the three record sections, both public walks and every stream of choices; the list machine terminates ((n+1)^2+n+1 steps), removes exactly the chosen records, never yields a deleted record again, yields every survivor, leaves the survivors in order; the object stays a plain object (count = number of records, emptied section absent, bytes accepted, section starts as a fresh parse reports them), other sections/question/header fields untouched; a second delete reports VoidRecord and changes nothing; the first deletion on a still-compressed object decompresses, carries the cursor and removes exactly that record. The run started on a parsed (possibly compressed) packet is composed from the two phases (walk_delete_parsed). The public next() walk over an additional section holding OPT is proved on plain objects (walk_delete_skipping_opt) and on freshly parsed, possibly compressed packets (walk_delete_parsed_skipping_opt). Question section (KF1): correspondence only. Exhaustive deletion walks (every subset of sections of size 0..5, four sections, two layouts, OPT absent/first/last) compare the real iterators with the model and the walk oracle.",
             "note": NOTE, "technique": "Lean 4 proof (piece-list representation of pointer-free objects, refinement of the cursor protocol to a list machine, list lemmas) + exhaustive small-scope correspondence + walk oracle"},
     "C12": {"text": "Lean theorems for all header words and all arguments: set_flags changes only bytes 2-3, keeps opcode and rcode (div/mod by position), sets each of QR AA TC RD RA Z AD CD to the argument's bit and ignores the argument's upper half; set_opcode / set_rcode / set_response / set_tid change only their field; every getter returns the stored field. Real behaviour compared with the model and with the frame condition computed from RFC 1035 field positions, exhaustively over all 65536 flag words in the thorough tier.",
             "note": NOTE, "technique": "exhaustive correspondence over flag words + div/mod oracle"},
